@@ -15,6 +15,8 @@ lines = open(src, encoding='latin-1').read().split('\n')
 ops = a.ops.split(',')
 muts = []
 for ln in range(a.first, a.last + 1):
+    if ln > len(lines):
+        break
     t = lines[ln - 1]
     s = t.strip()
     if not s or s.startswith('//') or s.startswith('*') or s.startswith('/*') or s.startswith('#'):
